@@ -49,8 +49,8 @@ type Op struct {
 	SArg    string `json:"sarg,omitempty"`
 	IArg    int    `json:"iarg,omitempty"`
 	Field   string `json:"field,omitempty"`
-	Defer   bool   `json:"defer,omitempty"`   // exp: keep the returned reader unread until the matching "read" op (IArg = Dst of the exp)
-	Sweep   bool   `json:"sweep,omitempty"`   // C19: sweep err@k over all k for this export
+	Defer   bool   `json:"defer,omitempty"`    // exp: keep the returned reader unread until the matching "read" op (IArg = Dst of the exp)
+	Sweep   bool   `json:"sweep,omitempty"`    // C19: sweep err@k over all k for this export
 	HasTemp bool   `json:"has_temp,omitempty"` // C12: generator knows the v2 temporal group is in Vec
 	HasEnv  bool   `json:"has_env,omitempty"`
 	Class   string `json:"class,omitempty"` // generator's recipe name, informational
@@ -92,14 +92,14 @@ type RunDesc struct {
 	WorldReps []RepSpec `json:"world_reps,omitempty"`
 	Tasks     [][]Op    `json:"tasks"`
 	// replay files only
-	Pair       *RunDesc `json:"pair,omitempty"` // C15 cross-process findings: a second history, executed in its own process
-	Build      string `json:"build,omitempty"` // which build found it: "", "race", "race-stockpool"
-	Expect     string `json:"expect,omitempty"`
-	Reproduced string `json:"reproduced,omitempty"`
-	Note       string `json:"note,omitempty"`
-	Minimised  bool   `json:"minimised,omitempty"`
-	OrigOps    int    `json:"orig_ops,omitempty"`
-	OrigSw     int    `json:"orig_switches,omitempty"`
+	Pair       *RunDesc `json:"pair,omitempty"`  // C15 cross-process findings: a second history, executed in its own process
+	Build      string   `json:"build,omitempty"` // which build found it: "", "race", "race-stockpool"
+	Expect     string   `json:"expect,omitempty"`
+	Reproduced string   `json:"reproduced,omitempty"`
+	Note       string   `json:"note,omitempty"`
+	Minimised  bool     `json:"minimised,omitempty"`
+	OrigOps    int      `json:"orig_ops,omitempty"`
+	OrigSw     int      `json:"orig_switches,omitempty"`
 }
 
 func (d *RunDesc) nOps() int {
@@ -125,27 +125,27 @@ type Violation struct {
 }
 
 type RunStats struct {
-	Ops          int            `json:"ops"`
-	Yields       uint64         `json:"yields"`
-	SeqYields    uint64         `json:"seq_yields,omitempty"`
-	Switches     uint64         `json:"switches"`
-	Preemptions  uint64         `json:"preemptions"`
-	MapRanges    uint64         `json:"map_ranges"`
-	Tasks        int            `json:"tasks"`
-	Policy       int            `json:"policy"`
-	DecodeOK     int            `json:"decode_ok"`
-	DecodeFail   int            `json:"decode_fail"`
-	Exports      int            `json:"exports"`
-	ExportErr    int            `json:"export_err"`
-	RaceReports  int            `json:"race_reports"`
-	Fault        faultStats     `json:"fault"`
-	Counters     map[string]int `json:"counters,omitempty"`
-	SwitchPairs  []uint64       `json:"switch_pairs,omitempty"`  // hashes of (pre-empted site, resumed-at site)
-	CaseKeys     []uint64       `json:"case_keys,omitempty"`     // hashes of non-trivial distinct cases (per-property rule)
-	CrossKeys    [][2]uint64    `json:"cross_keys,omitempty"`    // C15: (key hash, result hash) for cross-process comparison
-	CrossDetail  [][3]string    `json:"cross_detail,omitempty"`  // C15, replay of a pair only: (key hash, key, result)
-	DescHash     uint64         `json:"desc_hash"`
-	Sample       string         `json:"sample,omitempty"`
+	Ops         int            `json:"ops"`
+	Yields      uint64         `json:"yields"`
+	SeqYields   uint64         `json:"seq_yields,omitempty"`
+	Switches    uint64         `json:"switches"`
+	Preemptions uint64         `json:"preemptions"`
+	MapRanges   uint64         `json:"map_ranges"`
+	Tasks       int            `json:"tasks"`
+	Policy      int            `json:"policy"`
+	DecodeOK    int            `json:"decode_ok"`
+	DecodeFail  int            `json:"decode_fail"`
+	Exports     int            `json:"exports"`
+	ExportErr   int            `json:"export_err"`
+	RaceReports int            `json:"race_reports"`
+	Fault       faultStats     `json:"fault"`
+	Counters    map[string]int `json:"counters,omitempty"`
+	SwitchPairs []uint64       `json:"switch_pairs,omitempty"` // hashes of (pre-empted site, resumed-at site)
+	CaseKeys    []uint64       `json:"case_keys,omitempty"`    // hashes of non-trivial distinct cases (per-property rule)
+	CrossKeys   [][2]uint64    `json:"cross_keys,omitempty"`   // C15: (key hash, result hash) for cross-process comparison
+	CrossDetail [][3]string    `json:"cross_detail,omitempty"` // C15, replay of a pair only: (key hash, key, result)
+	DescHash    uint64         `json:"desc_hash"`
+	Sample      string         `json:"sample,omitempty"`
 }
 
 type RunResult struct {
